@@ -21,6 +21,8 @@ every collection (entry of the next allocation) and at the end of the run:
      entry of every n-th allocation, not only after collections
   10. between full collections the heap does not drift away from the live size: after any nursery collection under the
      shipped threshold policy no more than 16 x (bytes alive at the latest full collection) + 1 MiB are in use
+  11. what managed objects and the VM obtain outside the managed heap is given back: the bytes still held from the system
+     allocator after the VM was dropped are the same for n and 4 n iterations of a churn loop
   8. a program that ends normally leaves no temporary root behind: the number of temporary roots at the end of
      the run equals the number right after VM start-up (natives push and pop them in pairs, also on error paths)
 """
@@ -65,6 +67,9 @@ BIG_GARBAGE = [
     "let text = ''; for k in 70.times() { text = text + 'sixty four bytes of text that make this string long enough ......'; }",
 ]
 
+# a rolling window: every entry survives a few dozen iterations (long enough to be promoted) and is then replaced
+WINDOW = "window[i - (i / 40).floor() * 40] = [i, 'w${i}', 120.times().list()];"
+
 CHANNEL_GARBAGE = "let ch = chan(2); ch <- [i, 'payload']; ch <- [i];"
 
 
@@ -74,6 +79,8 @@ def churn_program(rng, kept, uniq, phases, with_channels=False, big=False):
         picks.append(MAILBOXES)
     if big:
         picks += rng.sample(BIG_GARBAGE, rng.randint(1, 3))
+        if rng.random() < 0.6:
+            picks.append(WINDOW)
     if with_channels:
         picks.append(CHANNEL_GARBAGE)
     body = " ".join("if true { %s }" % statement for statement in picks)
@@ -82,6 +89,7 @@ def churn_program(rng, kept, uniq, phases, with_channels=False, big=False):
         "class Pair { init(l, r) { self.left = l; self.right = r; } }",
         "fn garbage(i) { %s 1 }" % body,
         "let mail = []; for k in 12.times() { mail.push(chan(1)); }",
+        "let window = []; for k in 40.times() { window.push(nil); }",
         "let kept = [];",
         "for i in %d.times() { kept.push(Item(i)); }" % kept,
         "let uniq = [];",
@@ -93,7 +101,7 @@ def churn_program(rng, kept, uniq, phases, with_channels=False, big=False):
         "print(total, kept.len(), uniq.len());",
     ]
     # 'u' * 0 is not valid laythe, keep the line simple instead
-    lines[7] = "for i in %d.times() { uniq.push('unique-string-' + i.str()); }" % uniq
+    lines[8] = "for i in %d.times() { uniq.push('unique-string-' + i.str()); }" % uniq
     return {"name": "churn-loop", "main": workloads.MAIN, "files": {workloads.MAIN: "\n".join(lines) + "\n"},
             "garbage": picks}
 
@@ -132,6 +140,8 @@ class C20(Check):
             plan.append(("nonobject", number))
         for number in range(40 if tier == "quick" else 2000):
             plan.append(("drift", number))
+        for number in range(40 if tier == "quick" else 2000):
+            plan.append(("unmanaged", number))
         return plan
 
     def runs(self, tier):
@@ -155,6 +165,12 @@ class C20(Check):
                     "uniq": rng.randint(0, 8), "phases": rng.randint(90, 140),
                     "nursery": rng.choice([None, 2, 8, 64]), "arena": schedules.random_policy(rng, 0.5),
                     "channels": False, "label": "churn-loop"}
+        if entry[0] == "unmanaged":
+            # what managed objects and the VM obtain outside the managed heap (tables of classes and maps, vectors of
+            # fibers, ...) is given back by the time the VM is gone, however long the program ran
+            return {"kind": "unmanaged", "seed": rng.getrandbits(48), "kept": rng.randint(0, 12), "uniq": rng.randint(0, 8),
+                    "phases": rng.randint(60, 160), "threshold": rng.choice([1 << 14, 1 << 16, 1 << 18]),
+                    "arena": schedules.random_policy(rng, 0.5), "label": "churn-loop-quiet"}
         if entry[0] == "drift":
             # large short lived objects under the shipped threshold policy with a small first threshold: many nursery
             # collections between full ones
@@ -192,7 +208,48 @@ class C20(Check):
             return self.judge_steady(ctx, case)
         if case["kind"] == "drift":
             return self.judge_drift(ctx, case)
+        if case["kind"] == "unmanaged":
+            return self.judge_unmanaged(ctx, case)
         return self.judge_books(ctx, case)
+
+    def judge_unmanaged(self, ctx, case):
+        """Invariant 11: the bytes the process holds from the system allocator after the VM has been dropped do not depend
+        on how long the program ran. The same churn loop is run for n and for 4 n iterations in 'quiet' jobs (output,
+        markers and schedule records are not kept, so the worker's own memory is constant)."""
+        outcome = {"jobs": 2, "violations": [], "signatures": [], "counters": {"unmanaged_runs": 1}}
+        held = []
+        program = None
+        for factor in (1, 4):
+            rng = core.rng_for(case["seed"], "program", 0)
+            program = case.get("program_override") or churn_program(rng, case["kept"], case["uniq"], case["phases"] * factor, False,
+                                                                     rng.random() < 0.3)
+            job = base_job(program, "unmanaged")
+            job["gc"] = schedules.native(case["threshold"])
+            job["arena"] = case["arena"]
+            job["quiet"] = True
+            job["steps"] = 400000000
+            result = ctx.run(job)
+            if core.host_failure(result) or result["vmexit"] != "ok":
+                outcome["counters"]["invalid_workload"] = 1
+                return outcome
+            held.append(result["arena"]["system_bytes_not_returned"])
+            outcome["counters"]["collections_fired"] = outcome["counters"].get("collections_fired", 0) + result["fired_total"]
+            outcome["counters"]["vm_instructions"] = outcome["counters"].get("vm_instructions", 0) + result["steps"]
+            leak = (result.get("arena") or {}).get("leak")
+            if leak is not None and leak["blocks"] != 0:
+                outcome["violations"].append({"clause": "blocks still allocated after the VM was dropped",
+                                              "detail": "%d blocks / %d bytes live after drop" % (leak["blocks"], leak["bytes"]),
+                                              "case": copy.deepcopy(case)})
+        outcome["signatures"].append("unmanaged|%x" % case["seed"])
+        if held[1] - held[0] > 4096:
+            outcome["violations"].append({
+                "clause": "memory obtained outside the managed heap is not given back",
+                "detail": "churn-loop-quiet (garbage %s): %d bytes from the system allocator are still held after the VM was dropped when the "
+                          "loop ran %d times, %d bytes when it ran %d times" % (program.get("garbage"), held[0], case["phases"], held[1],
+                                                                               case["phases"] * 4),
+                "case": copy.deepcopy(case)})
+        outcome["sample"] = {"program_head": program["files"][program["main"]][:300], "system_bytes_not_returned": held}
+        return outcome
 
     def judge_drift(self, ctx, case):
         """Invariant 10: between full collections the heap does not drift away from the live size. After a nursery
@@ -230,6 +287,18 @@ class C20(Check):
                                      "%d bytes in use after the nursery collection at allocation %d, %d bytes were alive at the "
                                      "latest full collection" % (sample["live_bytes"], sample["at"], last_full)))
                     break
+        # ... and whatever the cadence of full collections, the heap comes back down: in a loop with a bounded live set the
+        # smallest size after five consecutive collections does not exceed the largest of five collections twenty earlier
+        # by more than half of it plus 1 MiB
+        sizes = [sample["live_bytes"] for sample in result["acct"]["samples"] if not sample.get("sampled")]
+        for i in range(24, len(sizes)):
+            before = max(sizes[i - 24:i - 19])
+            now = min(sizes[i - 4:i + 1])
+            if now - before > (1 << 20) + before // 2:
+                problems.append(("the heap only grows from collection to collection in a loop that keeps a bounded set alive",
+                                 "after collection %d: at least %d bytes in use over five collections, at most %d twenty collections "
+                                 "earlier" % (i, now, before)))
+                break
         counters["drift_runs"] = 1
         counters["drift_nursery_collections_after_a_full_one"] = nursery_after_full
         counters["collections_full"] = sum(1 for point in result["fired"] if point[1] == 2)
